@@ -1,12 +1,12 @@
 # configuration of ./check for property C05 (see props_config.py)
 CONFIG = {'gen': ['SmbCommands'],
- 'drivers': ['Smb', 'SmbDialects'],
+ 'drivers': ['Smb', 'SmbDialects', 'SmbHdrSf'],
  'rule': 'cases = for each of the 114 factory-reachable command structures: field assignments with pairwise distinct bytes in every '
          'integer (so byte order is observable) and boundary-biased random ones, AndX commands with an AndX block set through SetAndX in '
          'two cases of three -> the bytes the real Marshal emits vs the bytes of the MS-CIFS encoder written in Lean from the declared '
          'field list (Spec/Cifs.lean). distinct = distinct line; non-trivial = the implementation produced bytes Header: smb.hdr = '
          'Header.Marshal on explicit values of every header field (boundary-biased, byte-distinct) against the 32-byte MS-CIFS 2.2.3.1 '
-         'layout written in the specification.',
+         'layout written in the specification. smb.hdrsf: the header with each of the three interpretations of SecurityFeatures (reserved bytes, security signature, connectionless Key/CID/SequenceNumber) against the MS-CIFS 2.2.3.1 layout. A decoy object of the same command type is marshalled and scribbled on (AndX block, parameter words, data bytes) before half of the encodings.',
  'assumptions': ['the declared Go field types are taken as the transcription of MS-CIFS (the MS-CIFS PDF in the repository is empty in '
                  'this sandbox)',
                  'which declared fields live in the parameter block and which in the data block is read off the extracted marshal program'],
